@@ -14,7 +14,7 @@ RULE = ('1-3 original bundles (same source with different timestamp / sequence n
         'says which originals are complete. Non-trivial: at least two originals interleaved, or out-of-order / duplicated arrival; '
         'distinct = digest of (originals, arrival order).')
 COMPONENTS = bc.COMPONENTS
-PROBES = ('cut.whole_payload_fragment', 'arr.out_of_order', 'arr.duplicate', 'arr.dup_after_complete', 'arr.interleaved', 'cut.overlapping', 'cut.uneven', 'fault.drop', 'done.reassembled',
+PROBES = ('orig.with_integrity_block', 'cut.whole_payload_fragment', 'arr.out_of_order', 'arr.duplicate', 'arr.dup_after_complete', 'arr.interleaved', 'cut.overlapping', 'cut.uneven', 'fault.drop', 'done.reassembled',
           'orig.same_source', 'orig.same_time')
 ASSUMPTIONS = ['fragments of one original agree on the total length', 'the code resets CRC types on the synthesized bundle: only payload and extension blocks are compared']
 CHUNK = 25
@@ -54,7 +54,10 @@ def gen(ch, tier):
         for bix in range(ch.weighted('next', (3, 3, 2))):
             blocks.append(dict(type=ch.choice('bt', (192, 193)), num=2 + bix, flags=ch.choice('bf', (0, 1)), crc_type=ch.pick('bc', 3), blen=1 + ch.pick('bl', 20)))
         origs.append(dict(source=source, time=time, seqno=seqno, plen=plen, tag=oix + 1, pieces=pieces, style=style, blocks=blocks,
-                          pri_crc=ch.pick('pc', 3), pay_crc=ch.pick('yc', 3)))
+                          pri_crc=ch.pick('pc', 3), pay_crc=ch.pick('yc', 3),
+                          # the original carries an integrity block over its payload (bound to the primary block): it travels in the first
+                          # fragment and has to verify on the reassembled bundle, or the destination will not deliver it
+                          bib=ch.coin('bib', 1, 4)))
     arrivals = [[oix, pix] for (oix, orig) in enumerate(origs) for pix in range(len(orig['pieces']))]
     for ix in range(len(arrivals) - 1, 0, -1):
         jx = ch.pick('perm', ix + 1) if ch.coin('doperm', 3, 4) else ix
@@ -72,18 +75,28 @@ def gen(ch, tier):
     return dict(scenario='bp_reassemble', origs=origs, arrivals=arrivals, dropped=drop)
 
 
-def _blocks(orig):
+def _blocks(orig, pri=None):
     out = []
     for (ix, blk) in enumerate(orig['blocks']):
         out.append(dict(type=blk['type'], num=blk['num'], flags=blk['flags'], crc_type=blk['crc_type'], btsd=bc.body(300 + 10 * orig['tag'] + ix, blk['blen'], first=0x42)))
-    out.append(dict(type=1, num=1, flags=0, crc_type=orig['pay_crc'], btsd=bc.body(orig['tag'], orig['plen'])))
+    pay = dict(type=1, num=1, flags=0, crc_type=orig['pay_crc'], btsd=bc.body(orig['tag'], orig['plen']))
+    if orig.get('bib') and pri is not None:
+        from props import bpsec_common as sc
+        from ref import bpsec_cose
+        out.insert(0, bpsec_cose.make_bib(pri, pay, sc.RAW_KEYS[b'mac256'], b'mac256', num=2 + len(orig['blocks']), alg=5, source=orig['source'],
+                                          crc_type=orig['pay_crc']))
+    out.append(pay)
     return out
 
 
+def _primary(orig):
+    return dict(flags=0, crc_type=orig['pri_crc'], destination='dtn://n1/app', source=orig['source'], report_to='dtn:none',
+                create_time=orig['time'], seqno=orig['seqno'], lifetime=3600000)
+
+
 def fragments_of(orig):
-    pri = dict(flags=0, crc_type=orig['pri_crc'], destination='dtn://n1/app', source=orig['source'], report_to='dtn:none',
-               create_time=orig['time'], seqno=orig['seqno'], lifetime=3600000)
-    return rfc9171.fragment(pri, _blocks(orig), [tuple(piece) for piece in orig['pieces']])
+    pri = _primary(orig)
+    return rfc9171.fragment(pri, _blocks(orig, pri), [tuple(piece) for piece in orig['pieces']])
 
 
 class Run:
@@ -91,7 +104,9 @@ class Run:
 
 
 def execute(plan, sched, verbose=False):
-    nodes = {'n1': dict(node_id='dtn://n1/', rx_routes=[['^dtn://n1/.*$', 'deliver']], tx_routes=[['.*', 'dtn://next/', None, None]])}
+    from props import bpsec_common as sc
+    nodes = {'n1': dict(node_id='dtn://n1/', rx_routes=[['^dtn://n1/.*$', 'deliver']], tx_routes=[['.*', 'dtn://next/', None, None]],
+                        security=dict(keys=list(sc.KEYS.values()), policies=[]))}
     har = bp_net.BpHarness(dict(nodes=nodes), sched, verbose)
     run = Run()
     run.har = har
@@ -166,7 +181,7 @@ def _drive(run, plan, har):
                 run.viols.append(('payload', 'mixed' if other else 'altered', 'reassembled payload of original %d differs from what was sent (%d vs %d octets)' % (
                     dix, len(rec['payload']), len(want))))
                 return
-            want_ext = sorted((blk['type'], blk['btsd']) for blk in _blocks(origs[dix])[:-1])
+            want_ext = sorted((blk['type'], blk['btsd']) for blk in _blocks(origs[dix], _primary(origs[dix]))[:-1])
             got_ext = sorted((typ, data) for (typ, _num, data) in rec['blocks'] if typ != 1)
             if got_ext != want_ext:
                 run.viols.append(('ext-blocks', 'not-first-fragment', 'reassembled bundle carries extension blocks %r, first fragment had %r' % (
@@ -197,6 +212,8 @@ def describe(run):
         counters['cut.whole_payload_fragment'] = 1
     if 'uneven' in styles:
         counters['cut.uneven'] = 1
+    if any(orig.get('bib') for orig in plan['origs']):
+        counters['orig.with_integrity_block'] = 1
     if plan['dropped']:
         counters['fault.drop'] = 1
     if len(plan['origs']) > 1:
